@@ -28,6 +28,11 @@ pub enum Op {
     /// with a non-gated secret, on seeded credential 3 that was created with the gated secret only
     /// (authenticators with different hmac-secret configurations sharing one store)
     AssertTwicePrfMixedConfig,
+    /// a verified assertion with a PRF evaluation on seeded credential n, which has no PRF secret, by an
+    /// authenticator that has the capability: it fails late (after its counter write)
+    AssertPrfFailsLate(u8),
+    /// a U2F registration of a fresh key handle, then two CTAP2 assertions with that credential, in one task
+    U2fRegisterThenAssertTwice,
     /// an ordinary assertion, then a silent one (up = uv = false, nothing reported by the user
     /// step) and another silent one with seeded credential n, in one task
     AssertThenSilent(u8),
@@ -48,6 +53,8 @@ pub enum Outcome {
     Asserted { cred: Vec<u8>, counter: u32 },
     Registered { cred: Vec<u8> },
     Failed(u8),
+    /// a failure the scenario expects (the request cannot succeed)
+    FailedAsExpected(u8),
     /// two assertions in sequence: counter or status byte of each
     AssertedSeq { cred: Vec<u8>, results: Vec<Result<u32, u8>> },
 }
@@ -126,6 +133,30 @@ where
                 let first = a2.get_assertion(req()).await.map(|r| r.auth_data.counter.unwrap_or(0)).map_err(u8::from);
                 let second = a2.get_assertion(req()).await.map(|r| r.auth_data.counter.unwrap_or(0)).map_err(u8::from);
                 Outcome::AssertedSeq { cred: cred_id(3), results: vec![first, second] }
+            }
+            Op::AssertPrfFailsLate(n) => {
+                use passkey_types::ctap2::extensions::{AuthenticatorPrfInputs, AuthenticatorPrfValues};
+                let uv = ScriptedUv { verification_cap: Some(true), presence_cap: true, outcome: UvOutcome::Ok { presence: true, verification: true }, yields: uv_yields, log: Log::new() };
+                let mut a2 = Authenticator::new(Aaguid::new_empty(), Yielding { inner: store2, before: 1, after: 0 }, uv).hmac_secret(passkey_authenticator::extensions::HmacSecretConfig::new_without_uv());
+                let ext = passkey_types::ctap2::get_assertion::ExtensionInputs { hmac_secret: None, prf: Some(AuthenticatorPrfInputs { eval: Some(AuthenticatorPrfValues { first: [6; 32], second: None }), eval_by_credential: None }) };
+                match a2.get_assertion(ga_request(RP, Some(vec![cred_id(n)]), false, true, true, false, Some(ext))).await {
+                    Ok(r) => Outcome::Asserted { cred: cred_id(n), counter: r.auth_data.counter.unwrap_or(0) },
+                    Err(e) => Outcome::FailedAsExpected(e.into()),
+                }
+            }
+            Op::U2fRegisterThenAssertTwice => {
+                use passkey_authenticator::U2fApi;
+                let app = [0x33u8; 32];
+                let handle = vec![0x70 + idx as u8; 16];
+                let rp = crate::oracles::b64::url_nopad(&app);
+                match U2fApi::register(&mut auth, passkey_types::u2f::RegisterRequest { challenge: [1; 32], application: app }, &handle).await {
+                    Err(_) => Outcome::Failed(0x7f),
+                    Ok(_) => {
+                        let first = auth.get_assertion(ga_request(&rp, Some(vec![handle.clone()]), false, true, true, false, None)).await.map(|r| r.auth_data.counter.unwrap_or(0)).map_err(u8::from);
+                        let second = auth.get_assertion(ga_request(&rp, Some(vec![handle.clone()]), false, true, true, false, None)).await.map(|r| r.auth_data.counter.unwrap_or(0)).map_err(u8::from);
+                        Outcome::AssertedSeq { cred: handle, results: vec![first, second] }
+                    }
+                }
             }
             Op::AssertThenSilent(n) => {
                 let first = auth.get_assertion(ga_request(RP, Some(vec![cred_id(n)]), false, true, true, false, None)).await.map(|r| r.auth_data.counter.unwrap_or(0)).map_err(u8::from);
@@ -206,7 +237,7 @@ fn judge(sc: &Scenario, end: &End, outs: &[Option<Outcome>], store: &[Rec]) -> V
                     v.push(("lost-credential".into(), format!("ceremony {i} registered {} successfully, but it is not in the store afterwards", hex(cred))));
                 }
             }
-            Some(Outcome::Asserted { .. }) => {}
+            Some(Outcome::Asserted { .. }) | Some(Outcome::FailedAsExpected(_)) => {}
             Some(Outcome::AssertedSeq { results, .. }) => {
                 let failures = results.iter().filter(|r| r.is_err()).count();
                 let allowed = usize::from(sc.store == "memory-flaky");
@@ -238,7 +269,11 @@ fn judge(sc: &Scenario, end: &End, outs: &[Option<Outcome>], store: &[Rec]) -> V
             v.push(("duplicate-counter".into(), format!("{before} successful assertions with credential {} carry counters with a repeat (distinct values {counters:?})", hex(&c[..4]))));
         }
         let stored = store.iter().find(|r| r.id == c).and_then(|r| r.counter);
-        if stored != Some(max) {
+        // a ceremony that failed after its counter write has used up a value: the store may be ahead of
+        // the largest *reported* counter by at most one per such failure
+        let burnt = outs.iter().filter(|o| matches!(o, Some(Outcome::FailedAsExpected(_)))).count() as u32;
+        let ahead_ok = stored.is_some_and(|s| s > max && s - max <= burnt);
+        if stored != Some(max) && !ahead_ok {
             v.push((if stored.map_or(true, |s| s < max) { "stored-below-max" } else { "stored-above-max" }.into(), format!("largest reported counter {max}, store holds {stored:?}")));
         }
     }
@@ -278,6 +313,10 @@ pub fn scenarios(tier: Tier) -> Vec<(Scenario, Option<usize>)> {
             v.push((mk("assert;assert(lost write-back)", vec![Op::AssertTwice(1)], "memory-flaky"), None));
             // silent assertions (nothing asked of the user, nothing reported) advance the counter too
             v.push((mk("assert;silent;silent", vec![Op::AssertThenSilent(1)], "memory"), None));
+            v.push((mk("u2f-register;assert;assert", vec![Op::U2fRegisterThenAssertTwice], "memory"), None));
+            // a ceremony that fails after its counter write next to one that succeeds: whatever the
+            // failing one does to the store, the stored counter never falls below one handed out
+            v.push((mk("assert(fails late)||assert(same)", vec![Op::AssertPrfFailsLate(1), Op::Assert(1)], "memory"), None));
             v.push((mk("prf-assert;prf-assert(mixed hmac configurations)", vec![Op::AssertTwicePrfMixedConfig], "memory"), None));
 
             let b3 = Some(tier.pick(2, 3));
@@ -338,6 +377,7 @@ pub fn explore_scenario(sc: &Scenario, bound: Option<usize>, cap: u64) -> Result
                 Some(Outcome::Asserted { counter, .. }) => format!("a{counter}"),
                 Some(Outcome::Registered { .. }) => "r".into(),
                 Some(Outcome::Failed(b)) => format!("e{b:02x}"),
+                Some(Outcome::FailedAsExpected(b)) => format!("x{b:02x}"),
                 Some(Outcome::AssertedSeq { results, .. }) => format!("{results:?}"),
                 None => "-".into(),
             }).collect::<Vec<_>>());
